@@ -63,7 +63,8 @@ TReset ==
     /\ ts' = TS0
     /\ LMReset
 
-CfgOf(ev) == [ty |-> ev.ty, p |-> ev.p, topo |-> ev.topo, nu |-> ev.nu,
+CfgOf(ev) == [ty |-> ev.ty, p |-> ev.p, k |-> ev.k, topo |-> ev.topo,
+              nu |-> ev.nu,
               lim |-> ev.lim, pt |-> ev.pt, et |-> ev.et, me |-> ev.me]
 
 TCfg ==
@@ -73,6 +74,8 @@ TCfg ==
     /\ Explain(IsConfig(CfgOf(Ev)), <<l, "Cfg", "config", "IsConfig">>)
     /\ Explain(Ev.nf \in 1..3 /\ Ev.fm \in {"m", "ab"},
                <<l, "Cfg", "free", "nf in 1..3, fm in m|ab">>)
+    /\ Explain(Ev.r = RowsOf(CfgOf(Ev)) /\ Ev.c = ColsOf(CfgOf(Ev)),
+               <<l, "Cfg", "dims", <<RowsOf(CfgOf(Ev)), ColsOf(CfgOf(Ev))>>>>)
     /\ ts' = [ts EXCEPT !.cfg = CfgOf(Ev), !.nf = Ev.nf, !.nf0 = Ev.nf,
                         !.ph = "cfg"]
     /\ UNCHANGED lmvars
